@@ -110,13 +110,20 @@ fn case_bytes<F: Family>(input: &Input, ctx: &mut Ctx) -> CaseResult {
     all_fronts::<F>(input.bytes(), "given", ctx)
 }
 
+fn case_history<F: Family>(input: &Input, ctx: &mut Ctx) -> CaseResult {
+    // a valid packet is decoded first, then a frame that reuses one of its strings in another role
+    crate::checks::c04::history_core::<F>(input, ctx, 4)
+}
+
+pub const SUB_H3: Sub = Sub { name: "c12.history.v3", f: case_history::<V3> };
+pub const SUB_H5: Sub = Sub { name: "c12.history.v5", f: case_history::<V5> };
 pub const SUB_V3: Sub = Sub { name: "c12.invariants.v3", f: case::<V3> };
 pub const SUB_V5: Sub = Sub { name: "c12.invariants.v5", f: case::<V5> };
 pub const SUB_B3: Sub = Sub { name: "c12.bytes.v3", f: case_bytes::<V3> };
 pub const SUB_B5: Sub = Sub { name: "c12.bytes.v5", f: case_bytes::<V5> };
 
 pub fn subs() -> Vec<Sub> {
-    vec![SUB_V3, SUB_V5, SUB_B3, SUB_B5]
+    vec![SUB_V3, SUB_V5, SUB_B3, SUB_B5, SUB_H3, SUB_H5]
 }
 
 pub fn run(env: &mut Env) -> RunResult {
@@ -133,6 +140,10 @@ pub fn run(env: &mut Env) -> RunResult {
     let n = env.tier.sel(25_000, 400_000);
     env.run_tapes(SUB_V3, n, 200)?;
     env.run_tapes(SUB_V5, n * 3, 300)?;
+    env.run_tapes(SUB_H3, n / 4, 300)?;
+    env.run_tapes(SUB_H5, n / 2, 400)?;
+    env.require("c12.history.v5", "history:into-response-topic:reject");
+    env.require("c12.history.v5", "history:into-topic-name:reject");
     for l in V3::FIELD_LABELS {
         env.require("c12.invariants.v3", l);
     }
